@@ -277,6 +277,12 @@ class MapToMolecule(Processor):
                     raise IOError(MultiblockError.format(self.node_to_block[node]))
 
                 correspondence = new_mol.merge_molecule(block)
+                # merging counts on from the last residue as if the residue
+                # numbers of the block started at 1
+                shift = min(nx.get_node_attributes(block, "resid").values()) - 1
+                if shift:
+                    for mol_node in correspondence.values():
+                        new_mol.nodes[mol_node]["resid"] -= shift
             # make the residue from the correspondence
             residue = _correspondence_to_residue(meta_molecule,
                                                  new_mol,
